@@ -454,6 +454,9 @@ func (fc *FuncCtx) execRange(st *State, x *ast.RangeStmt, label string) *State {
 		coll = fc.derefChecked(st, coll, x, "range operand")
 	}
 	lc, ord := fc.loopContract(x)
+	if fc.lockLoop(st, x, lc) {
+		return st
+	}
 	at := x.Body.Lbrace
 	ghostName := "range_i" + strconv.Itoa(ord)
 	var lenS string
